@@ -52,25 +52,24 @@ theorem calc_forced_reg (e : Expr) : ∀ (d : Nat) (long : Option Bool) (g g' : 
       rw [pure_ok] at h; cases h; rfl
   | neg a ih =>
     intro d long g g' res h
-    simp only [calculate] at h
-    rw [bind_ok] at h; obtain ⟨ra, g1, hc, h⟩ := h
-    rw [bind_ok] at h; obtain ⟨u, g2, _, h⟩ := h
+    simp only [calculate, getFree] at h
+    rw [bind_ok] at h; obtain ⟨⟨d1, rel⟩, g1, hfree, h⟩ := h
+    rw [pure_ok] at hfree; cases hfree
+    simp only [] at h
+    rw [bind_ok] at h; obtain ⟨ra, g2, hc, h⟩ := h
+    rw [bind_ok] at h; obtain ⟨u, g3, _, h⟩ := h
     rw [pure_ok] at h; cases h
-    exact ih d long g g1 _ hc
+    exact ih d long _ _ ra hc
   | abs a ih =>
     intro d long g g' res h
-    simp only [calculate] at h
-    rw [bind_ok] at h; obtain ⟨ra, g1, hc, h⟩ := h
-    rw [bind_ok] at h; obtain ⟨os, g2, _, h⟩ := h
-    have hres : res = ra := by
-      split at h
-      · rw [bind_ok] at h; obtain ⟨u0, g3, hf, _⟩ := h; rw [fail_ok] at hf; exact hf.elim
-      · rw [bind_ok] at h; obtain ⟨u1, g4, _, h⟩ := h
-        rw [bind_ok] at h; obtain ⟨u2, g5, _, h⟩ := h
-        rw [bind_ok] at h; obtain ⟨u3, g6, _, h⟩ := h
-        rw [pure_ok] at h; cases h; rfl
-    subst hres
-    exact ih d long g g1 _ hc
+    simp only [calculate, getFree] at h
+    rw [bind_ok] at h; obtain ⟨⟨d1, rel⟩, g1, hfree, h⟩ := h
+    rw [pure_ok] at hfree; cases hfree
+    simp only [] at h
+    rw [bind_ok] at h; obtain ⟨ra, g2, hc, h⟩ := h
+    rw [bind_ok] at h; obtain ⟨u, g3, _, h⟩ := h
+    rw [pure_ok] at h; cases h
+    exact ih d long _ _ ra hc
   | mem f a _ =>
     intro d long g g' res h
     cases hs : a.asSum with
@@ -146,26 +145,27 @@ theorem calc_resLong (e : Expr) : ∀ (dst : Option Nat) (long : Option Bool) (f
   | neg a ih =>
     intro dst long force g g' res h
     simp only [calculate] at h
-    rw [bind_ok] at h; obtain ⟨ra, g1, hc, h⟩ := h
-    rw [bind_ok] at h; obtain ⟨u, g2, _, h⟩ := h
+    rw [bind_ok] at h; obtain ⟨⟨d1, rel⟩, g1, _, h⟩ := h
+    simp only [] at h
+    rw [bind_ok] at h; obtain ⟨ra, g2, hc, h⟩ := h
+    rw [bind_ok] at h; obtain ⟨u, g3, _, h⟩ := h
     rw [pure_ok] at h; cases h
     have := ih _ _ _ _ _ _ hc
-    cases long <;> simpa [retLong, widthOf] using this
+    cases long with
+    | none => simpa [retLong, widthOf, unaryLong] using this
+    | some b => cases b <;> simpa [retLong, widthOf, unaryLong] using this
   | abs a ih =>
     intro dst long force g g' res h
     simp only [calculate] at h
-    rw [bind_ok] at h; obtain ⟨ra, g1, hc, h⟩ := h
-    rw [bind_ok] at h; obtain ⟨os, g2, _, h⟩ := h
-    have hres : res = ra := by
-      split at h
-      · rw [bind_ok] at h; obtain ⟨u0, g3, hf, _⟩ := h; rw [fail_ok] at hf; exact hf.elim
-      · rw [bind_ok] at h; obtain ⟨u1, g4, _, h⟩ := h
-        rw [bind_ok] at h; obtain ⟨u2, g5, _, h⟩ := h
-        rw [bind_ok] at h; obtain ⟨u3, g6, _, h⟩ := h
-        rw [pure_ok] at h; cases h; rfl
-    subst hres
+    rw [bind_ok] at h; obtain ⟨⟨d1, rel⟩, g1, _, h⟩ := h
+    simp only [] at h
+    rw [bind_ok] at h; obtain ⟨ra, g2, hc, h⟩ := h
+    rw [bind_ok] at h; obtain ⟨u, g3, _, h⟩ := h
+    rw [pure_ok] at h; cases h
     have := ih _ _ _ _ _ _ hc
-    cases long <;> simpa [retLong, widthOf] using this
+    cases long with
+    | none => simpa [retLong, widthOf, unaryLong] using this
+    | some b => cases b <;> simpa [retLong, widthOf, unaryLong] using this
   | mem f a _ =>
     intro dst long force g g' res h
     cases hs : a.asSum with
